@@ -23,22 +23,22 @@ type ObsItem struct {
 	Deps, RDeps                                                                          []string
 	Results                                                                              []ObsResult
 	// from list
-	InList                            bool
-	LKind, LEpic, LState, LClaimedBy  string
-	LTitle                            string
-	Ready, Blocked, HasResults        bool
-	Shown                             bool // show data present
-	ShownVia                          string
+	InList                           bool
+	LKind, LEpic, LState, LClaimedBy string
+	LTitle                           string
+	Ready, Blocked, HasResults       bool
+	Shown                            bool // show data present
+	ShownVia                         string
 }
 
 type Obs struct {
-	Items     map[string]*ObsItem
-	ReadyIDs  []string // ids in list --ready
-	Failures  []string // reads that failed (command, stderr)
-	LogBytes  []byte
-	LogPath   string
-	DirList   string // names + sizes in .ergo
-	NProcs    int
+	Items    map[string]*ObsItem
+	ReadyIDs []string // ids in list --ready
+	Failures []string // reads that failed (command, stderr)
+	LogBytes []byte
+	LogPath  string
+	DirList  string // names + sizes in .ergo
+	NProcs   int
 }
 
 func (o *Obs) IDs() []string {
